@@ -53,6 +53,11 @@ def check(ctx):
     _tables(ctx, mod)
     _key_split(ctx, mod)
     _int_guards(ctx, mod)
+    # ---------------- parse_bytes: the unit is the maximal ALPHABETIC suffix; everything before it is the number
+    pb_ = mod.func("parse_bytes")
+    scan = [l for l in walk_no_nested(pb_) if isinstance(l, ast.For) and eqv(l.iter, "range(len(s) - 1, -1, -1)")]
+    ok = len(scan) == 1 and any(isinstance(n, ast.If) and eqv(n.test, "not s[i].isalpha()") and any(isinstance(b_, ast.Break) for b_ in n.body) for n in scan[0].body) and bool(find("index = i + 1", pb_)) and bool(find("prefix = s[:index]", pb_)) and bool(find("suffix = s[index:]", pb_)) and bool(find("n = float(prefix)", pb_))
+    ctx.ob("ALG.parse-bytes.split", pb_, "scan from the right to the last non-letter: number = s[:index] (anything float() accepts, e.g. 1e-3, 2.5E+2), unit = s[index:]", ok, "" if ok else "a hand-written number pattern accepts fewer spellings than float(): '1e-3 GB' or '2.5E+2 MiB' no longer parse")
     _siblings(ctx, mod)
 
 
@@ -80,6 +85,8 @@ def _format_bytes(ctx, mod):
         raise AnalysisError("format_bytes: threshold test `n >= k * c` not recognised")
     thr = fold(m["M_c"])
     fmt = ret[0].value
+    okf = eqv(fmt, "f'{n / k:.2f} {prefix}B'") and len([x for x in lp.body[-1].body if not isinstance(x, ast.Return)]) == 0 if isinstance(lp.body[-1], ast.If) else False
+    ctx.ob("ALG.format-bytes.two-decimals", lp, "a band prints f'{n / k:.2f} {prefix}B': the quotient rounded to two decimals BY THE FORMATTER (carries into the integer part)", okf, "" if okf else "hand-made rounding of the fraction does not carry (2047 -> '1.100 kiB', which parses back as 1126) or prints more than 10 characters")
     ok = [b[1] for b in bands] == sorted((b[1] for b in bands), reverse=True)
     ctx.ob("ABS.format-bytes.order", lp, "bands are tried from the largest unit down", ok, "" if ok else "a smaller unit shadows a larger one")
     prev_lo = DOC_LIMIT
@@ -91,6 +98,8 @@ def _format_bytes(ctx, mod):
         try:
             s = fold(fmt, {"n": n_max, tnames[0]: prefix, tnames[1]: k})
         except NotConstant as e:
+            if not okf:
+                return  # already reported: the format expression is not the expected one
             raise AnalysisError(f"format_bytes: output format not foldable: {e}")
         ok = len(s) <= DOC_WIDTH
         ctx.ob(
